@@ -1134,6 +1134,9 @@ class Executor:
     no_fork = False
 
     def ev_IfExp(self, node):
+        r = self.models._plug("ifexp", self, node)  # opt-in (plug_c03): a choice between two null context managers does not fork
+        if r is not NotImplemented:
+            return r
         t = self.truth(self.ev(node.test))
         if self.no_fork and not isinstance(t, bool) and not z3.is_true(z3.simplify(t)) and not z3.is_false(z3.simplify(t)):
             # inside a comprehension element: conditional expression as an if-then-else term
